@@ -64,12 +64,17 @@ def readStep (c : Cfg) (lim : Option Nat) (cap : Nat) (st : St) : (Nat × Option
         some (n + 1 - (srcRead c (min cap (n + 1)) st).1.1))
     | none => (srcRead c cap st |>.1, srcRead c cap st |>.2, none)
 
-/-- a write that reaches the sink: `k` bytes starting at `from` in the data -/
+/-- how many of `k` bytes the sink still takes -/
+def room (c : Cfg) (st : St) (k : Nat) : Nat :=
+  match c.sinkLimit with
+  | some m => m - st.out.length
+  | none => k
+
+/-- a write that reaches the sink: `k` bytes starting at `frm` in the data -/
 def sinkWrite (c : Cfg) (frm k : Nat) (st : St) : (Nat × Option Err) × St :=
-  let room := match c.sinkLimit with | some m => m - st.out.length | none => k
-  let ops := if c.sinkCounts then st.ops + 1 else st.ops
-  if room < k then ((room, some .sink), { st with ops := ops, out := st.out ++ (c.data.drop frm).take room })
-  else ((k, none), { st with ops := ops, out := st.out ++ (c.data.drop frm).take k })
+  ((min k (room c st k), if room c st k < k then some .sink else none),
+   { st with ops := if c.sinkCounts then st.ops + 1 else st.ops,
+             out := st.out ++ (c.data.drop frm).take (min k (room c st k)) })
 
 /-- contextio writer (`checked`) or the sink's own ReadFrom loop writing into itself (`!checked`) -/
 def writeStep (c : Cfg) (checked : Bool) (frm k : Nat) (st : St) : (Nat × Option Err) × St :=
@@ -120,25 +125,32 @@ def copyData (c : Cfg) (script : List Nat) (sinkReaderFrom : Bool) : Out :=
   let r := pump c (!sinkReaderFrom) (copyCap sinkReaderFrom none) (fuelFor c script) none st 0
   { count := r.1.1, err := r.1.2, st := r.2 }
 
+/-- io.CopyN's result rule -/
+def copyNErr (count : Nat) (err : Option Err) (n : Int) : Option Err :=
+  if (count : Int) = n then none else if (count : Int) < n ∧ err = none then some Err.eof else err
+
 /-- CopyNWithContext -/
 def copyN (c : Cfg) (script : List Nat) (sinkReaderFrom : Bool) (n : Int) : Out :=
   let st := St.init script
   if done c st then { count := 0, err := some .cancelled, st := st } else
-  let lim := n.toNat
-  let r := pump c (!sinkReaderFrom) (copyCap sinkReaderFrom (some lim)) (fuelFor c script) (some lim) st 0
-  let err := if (r.1.1 : Int) = n then none
-             else if (r.1.1 : Int) < n ∧ r.1.2 = none then some Err.eof else r.1.2
-  { count := r.1.1, err := err, st := r.2 }
+  let r := pump c (!sinkReaderFrom) (copyCap sinkReaderFrom (some n.toNat)) (fuelFor c script) (some n.toNat) st 0
+  { count := r.1.1, err := copyNErr r.1.1 r.1.2 n, st := r.2 }
+
+/-- the configuration ReadAtMost runs the loop with: an in-memory buffer as sink -/
+def bufCfg (c : Cfg) : Cfg := { c with sinkLimit := none, sinkCounts := false }
+def readLim (max : Int) : Option Nat := if max < 0 then none else some max.toNat
+
+/-- ReadAtMost's result rule: an error hides the content, nothing read is 'empty' -/
+def readResult (r : (Nat × Option Err) × St) : Out :=
+  match r.1.2 with
+  | some e => { count := 0, err := some e, st := r.2 }
+  | none => if r.1.1 = 0 then { count := 0, err := some .empty, st := r.2 }
+            else { count := r.2.out.length, err := none, st := r.2 }
 
 /-- ReadAtMost (`max < 0`: no limit): the sink is a bytes.Buffer, which never fails -/
 def readAtMost (c : Cfg) (script : List Nat) (max : Int) : Out :=
   let st := St.init script
   if done c st then { count := 0, err := some .cancelled, st := st } else
-  let lim := if max < 0 then none else some max.toNat
-  let r := pump { c with sinkLimit := none, sinkCounts := false } false 512 (fuelFor c script) lim st 0
-  match r.1.2 with
-  | some e => { count := 0, err := some e, st := r.2 }
-  | none => if r.1.1 = 0 then { count := 0, err := some .empty, st := r.2 }
-            else { count := r.2.out.length, err := none, st := r.2 }
+  readResult (pump (bufCfg c) false 512 (fuelFor c script) (readLim max) st 0)
 
 end GoUtils.IO
